@@ -7,6 +7,13 @@ Tie, continued: the translated `IPv4`, `IPv6`, `Float`, `Double`, `Undefined`, t
 states.  Addresses: the model speaks about byte tuples; the text between `unpack` and `pack` is what `inet_ntoa` writes
 (`dotted`; `aton_ntoa`: the prelude's `inet_aton` reads it back, proved for all 2^32 addresses), IPv6 texts are carried by
 the bytes they denote.  Floats are bit patterns (`PyT.floatBits`).
+
+WHAT THE HYPOTHESES EXCLUDE (audit round 8): `Float_*_eq` / `Double_*_eq` cover a slot holding `floatBits k w` of the class's
+OWN width only (`Float(x)` of an ordinary double is `unsupported` in the prelude).  `<Class>_eq_eq : C_eq self other =
+eqModel self other` is NOT a model tie: `eqModel` is a restatement in this file, used by no property theorem, and for
+Float / Double / IPv6 operands and `X(v) == X()` both sides are `unsupported` — `DataType.__eq__` counts as translated and
+validated against CPython only.  `BitArray_construct_sim`: the second conjunct is about the model only, `to_bytes()` after
+construction is not proved here.  Offsets are `Nat`; no operation-sequence simulation for these classes.
 -/
 namespace PlumVerif.TieTypesD
 open PlumVerif PlumVerif.Py PlumVerif.Types PlumVerif.TieTypes PlumVerif.TieTypesB PlumVerif.TieTypesC
